@@ -6,6 +6,7 @@ Code modelled (hail/python/hailtop/…):
 * `aiotools/fs/stream.py`  `EmptyReadableStream`, `_ReadableStreamFromBlocking.read/_readexactly`
 * `aiotools/local_fs.py`   `LocalAsyncFS._open_from` (`seek(start)` + `TruncatedReadableBinaryIO(bio, length)`),
                            `TruncatedReadableBinaryIO.read`
+* `aiocloud/common/session.py` `Session._request_with_valid_authn` (auth headers laid over the caller's headers: `withAuth`)
 * `aiocloud/aiogoogle/client/storage_client.py`  `GoogleStorageAsyncFS._open_from` (Range header), `get_object` (416 → UnexpectedEOFError),
                            `GetObjectStream` (an `aiohttp.StreamReader` over the response body)
 * `aiocloud/aioaws/fs.py`  `S3AsyncFS._open_from` (Range header, `InvalidRange` → UnexpectedEOFError), body wrapped by
@@ -51,6 +52,27 @@ def render (r : ByteRange) : String :=
 
 /-- the value of the `Range` header / `Range=` argument -/
 def rangeHeader (start : Nat) (len : Option Nat) : Option String := (rangeSpec start len).map render
+
+/-! ### the credentials layer between the GCS client and the wire (`hailtop/aiocloud/common/session.py`) -/
+
+/-- request headers as a lookup -/
+abbrev Headers := String → Option String
+
+/-- `Session._request_with_valid_authn`, one attempt:
+```
+auth_headers, expiration = await self._credentials.auth_headers_with_expiration()
+if auth_headers:
+    if 'headers' in kwargs: kwargs['headers'].update(auth_headers)
+    else:                   kwargs['headers'] = auth_headers
+```
+With anonymous credentials (`auth_headers == {}`) the caller's headers go out untouched; otherwise the auth entries are laid over
+them.  The same `kwargs` are used for the retry after a 401. -/
+def withAuth (caller : Option Headers) (auth : List (String × String)) : Option Headers :=
+  if auth.isEmpty then caller
+  else some fun k =>
+    match auth.lookup k with
+    | some v => some v
+    | none => caller.bind (· k)
 
 inductive Resp where
   /-- 200: the Range header was ignored -/
